@@ -820,14 +820,14 @@ fn u_change_tree_movable() {
     u_change_tree_body::<2>(Cfg::Movable)
 }
 
-// @h props=C10,C04,C09 tier=quick geom=1 panics=C09 mem=C18
+// @h props=C10,C04,C09 tier=thorough geom=1 panics=C09 mem=C18
 #[kani::proof]
 #[kani::unwind(10)]
 fn u_drain_zeroed() {
     u_drain_body::<2>(Cfg::Zeroed)
 }
 
-// @h props=C10,C09 tier=quick geom=1 panics=C09 mem=C18
+// @h props=C10,C09 tier=thorough geom=1 panics=C09 mem=C18
 #[kani::proof]
 #[kani::unwind(10)]
 fn u_drain_zeroslot() {
